@@ -151,7 +151,7 @@ pub fn c02(ctx: &Ctx, rep: &mut Report) {
     }
     rep.count("deterministic_cases", rep.evaluations);
     // random part
-    let n = ctx.share(60_000, 3_000_000);
+    let n = ctx.share(400_000, 6_000_000);
     for i in 0..n {
         if i % 256 == 0 && ctx.out_of_time() && i >= n / 20 {
             rep.notes.push(format!("time budget reached after {} of {} random cases", i, n));
@@ -415,7 +415,7 @@ pub fn c03(ctx: &Ctx, rep: &mut Report) {
             let _ = std::fs::remove_file(&bf);
         }
     }
-    let n = ctx.share(30_000, 1_500_000);
+    let n = ctx.share(150_000, 2_500_000);
     for i in 0..n {
         if i % 256 == 0 && ctx.out_of_time() && i >= n / 20 {
             rep.notes.push(format!("time budget reached after {} of {} random cases", i, n));
@@ -733,7 +733,7 @@ pub fn c04(ctx: &Ctx, rep: &mut Report) {
             }
         }
     }
-    let n = ctx.share(30_000, 1_000_000);
+    let n = ctx.share(200_000, 3_000_000);
     for i in 0..n {
         if i % 256 == 0 && ctx.out_of_time() && i >= n / 20 {
             rep.notes.push(format!("time budget reached after {} of {} random cases", i, n));
@@ -1089,7 +1089,7 @@ pub fn c17(ctx: &Ctx, rep: &mut Report) {
             let _ = std::fs::remove_file(&f);
         }
     }
-    let n = ctx.share(20_000, 800_000);
+    let n = ctx.share(250_000, 3_000_000);
     for i in 0..n {
         if i % 256 == 0 && ctx.out_of_time() && i >= n / 20 {
             rep.notes.push(format!("time budget reached after {} of {} random cases", i, n));
